@@ -54,11 +54,12 @@ RefFault(n, this, vars, bound) ==
   IF IsErr(t) THEN t.kind
   ELSE IF TokType(t) \in DT(n) THEN "ok" ELSE "TypeMismatch"
 
-\* the token of the elements a quantifier ranges over: known when the domain is a reference to an array of messages
+\* the token of the elements a quantifier ranges over: known when the domain is a reference to an array (of messages,
+\* of arrays, of primitive values: a field path through the variable resolves only in the first case)
 ElemToken(dom, this, vars, bound) ==
   IF ~IsAccessor(dom) THEN Unknown
   ELSE LET t == Resolve(dom, this, vars, bound) IN
-       IF IsErr(t) THEN Unknown ELSE IF t.k = "arr" /\ t.sub.k = "msg" THEN t.sub ELSE Unknown
+       IF IsErr(t) THEN Unknown ELSE IF t.k = "arr" THEN t.sub ELSE Unknown
 
 Extend(bound, x, t) == [y \in (DOMAIN bound) \cup {x} |-> IF y = x THEN t ELSE bound[y]]
 
